@@ -3,7 +3,7 @@
   All theorems are quantified over EVERY open/close logic (arbitrary state types and functions).
 -/
 import CircuitProofs.Props.CircuitCommon
-import CircuitProofs.Lemmas.Circuit
+import CircuitProofs.Lemmas.CircuitA
 namespace CM.Props.C05
 open CM CM.SpecCircuit CM.Props
 
@@ -14,14 +14,26 @@ open CM CM.SpecCircuit CM.Props
     and exactly one fallback event of the right kind per fallback attempt. -/
 theorem c05_holds {σo σc : Type} (O : OpenerI σo) (C : CloserI σc) (c : Circ σo σc) (hq : Quiescent c) (op : ExecOp) :
     verdictC05 c.cfg (some (actualAdmission C c)) (actualPrevent O c) op (execObs O C c op) = none := by
-  sorry
+  obtain ⟨hq1, hq2⟩ := hq
+  by_cases hdis : c.cfg.disabled = true
+  · simp [verdictC05, hdis]
+  have hen : c.cfg.disabled = false := by simpa using hdis
+  obtain ⟨ctx, run, fb⟩ := op
+  cases run with
+  | none => simp [verdictC05, hen]
+  | some sc =>
+    obtain ⟨seen, evs, res1, arg, fevs, res, hrc, e1, e2, e3, e4, e5, hfb⟩ := exec_cases O C c ctx sc fb hq1 hq2 hen
+    refine c05_pure c.cfg _ _ ctx sc fb _ _ hen rfl seen evs res1 arg fevs res hrc ?_ e2 e4 hfb
+    simp only [execObs, mkObs]
+    rw [e1]
 
 /-- explicitly: an enabled circuit, a supplied run function that does not panic, no veto ⇒ exactly one run event -/
 theorem exactly_one_run_event {σo σc : Type} (O : OpenerI σo) (C : CloserI σc) (c : Circ σo σc) (op : ExecOp)
     (sc : Script) (hen : c.cfg.disabled = false) (hrun : op.run = some sc) (hnp : ∀ v, sc.act ≠ .panic v)
     (hveto : ¬ (actualAdmission C c = true ∧ actualPrevent O c = true)) :
     (runEvents (execute O C c op.ctx op.run op.fb).2.1.emits).length = 1 := by
-  sorry
+  rw [hrun]
+  exact execute_one_run_event O C c op.ctx sc op.fb hen hnp hveto
 
 /-- delivered identically: with recording (scripted) logic on both sides, closer and opener each receive exactly
     the run events and notifications the collectors receive, in the same order -/
@@ -31,7 +43,10 @@ theorem fanout_identical (c : Circ OState CState) (so : ScriptedO) (sc : Scripte
     let nonFb := r.2.1.emits.filter (fun e => match e with | .fb _ _ _ => false | _ => true)
     ∃ so' sc', r.1.opener = .scripted so' ∧ r.1.closer = .scripted sc' ∧
       so'.log = so.log ++ nonFb ∧ sc'.log = sc.log ++ nonFb := by
-  sorry
+  intro r nonFb
+  have h0 : LogInv so sc ((c, {}) : St OState CState) := ⟨so, sc, ho, hc, by simp, by simp⟩
+  obtain ⟨so', sc', h1, h2, h3, h4⟩ := execute_inv c h0 op.ctx op.run op.fb
+  exact ⟨so', sc', h1, h2, h3, h4⟩
 
 /-- non-vacuity: a failing call that also ran past its timeout is a timeout; a bad request wins over the timeout -/
 example : (runEvents (execute openerI closerI ({ cfg := { timeout := 5 }, opener := .never, closer := .never } : Circ OState CState)
